@@ -263,19 +263,16 @@ where
         }
 
         if self.result.as_mut().unwrap().is_bin {
-            if self.col == 0 {
-                self.result.as_mut().unwrap().writer.write_u8(0x00)?;
-
-                // leave space for nullmap
-                self.data.resize(self.bitmap_len, 0);
-            }
-
             let c = self.columns.get(self.col).ok_or_else(|| {
                 io::Error::new(
                     io::ErrorKind::InvalidData,
                     "row has more columns than specification",
                 )
             })?;
+            if self.col == 0 {
+                // leave space for nullmap
+                self.data.resize(self.bitmap_len, 0);
+            }
             if v.is_null() {
                 if c.colflags.contains(ColumnFlags::NOT_NULL_FLAG) {
                     return Err(io::Error::new(
@@ -289,7 +286,12 @@ where
                     self.data[(self.col + 2) / 8] |= 1u8 << ((self.col + 2) % 8);
                 }
             } else {
-                v.to_mysql_bin(&mut self.data, c)?;
+                // a refused value must leave nothing behind in the row
+                let len = self.data.len();
+                if let Err(e) = v.to_mysql_bin(&mut self.data, c) {
+                    self.data.truncate(len);
+                    return Err(e);
+                }
             }
         } else {
             v.to_mysql_text(self.result.as_mut().unwrap().writer)?;
@@ -313,11 +315,10 @@ where
         }
 
         if self.result.as_mut().unwrap().is_bin {
-            self.result
-                .as_mut()
-                .unwrap()
-                .writer
-                .write_all(&self.data[..])?;
+            let w = &mut self.result.as_mut().unwrap().writer;
+            // packet header of a binary row
+            w.write_u8(0x00)?;
+            w.write_all(&self.data[..])?;
             self.data.clear();
         }
         self.result.as_mut().unwrap().writer.end_packet()?;
